@@ -56,7 +56,7 @@ def targets():
 
 STAGES = [['C03_core.v'],
           ['C03_steps.v', 'C03_partial_a.v', 'C03_partial_b.v',
-           ('C03_refuted_saam.v', {'finding': 'SAAM.am-quaternion/Q-nonfinite@level'})],
+           ('C03_refuted_saam.v', {'finding': 'SAAM.am-quaternion/nan-or-nan-rejected@level'})],
           ['C03_batch.v'], ['C03.v']]
 
 LEVEL_TEXT = ("Coq theorems over the regenerated update steps: unit_after_step with the pre-normalisation vector proved non-zero "
@@ -296,6 +296,15 @@ def _validate(kind, X, N):
     return None
 
 
+NANFAM = 'nan-or-nan-rejected'
+
+
+def _nan_rejected(r):
+    """a NaN produced inside a filter that surfaces as the Quaternion/QuaternionArray constructor's rejection
+    ('... cannot have NaN or infinite values') is the same defect as a NaN row in the output: one tag family"""
+    return r[0] == 'raise' and r[1] == 'ValueError' and 'nan' in str(r[2]).lower()
+
+
 def o_attitudes(inp):
     """one filter class x architecture x frame x parameter set on one sensor history: exactly N attitudes, each a real,
     finite unit quaternion / proper rotation matrix / finite angle triple"""
@@ -316,12 +325,15 @@ def o_attitudes(inp):
     else:
         args = (gyr.copy(), acc.copy(), mag.copy())
     r = call_outcome(_observe, cls, arch, frame, ps, *args)
+    if _nan_rejected(r):
+        return {'tag': f"{where}/{NANFAM}{suffix}", 'observed': list(r[1:]), 'expected': f'{N} valid attitudes'}
     if r[0] == 'raise':
         return {'tag': f"{where}/raises-{r[1]}{suffix}", 'observed': list(r[1:]), 'expected': f'{N} valid attitudes'}
     for attr, kind, X in r[1]:
         bad = _validate(kind, X, N)
         if bad is not None:
-            return {'tag': f"{where}/{attr}-{bad[0]}{suffix}", 'observed': bad[1],
+            what = NANFAM if bad[0] == 'nonfinite' else f"{attr}-{bad[0]}"
+            return {'tag': f"{where}/{what}{suffix}", 'observed': bad[1],
                     'expected': f'{N} real finite {kind} rows (unit norm / SO(3) within {TOL})'}
     return None
 
@@ -368,11 +380,13 @@ def o_step(inp):
     suffix = '' if kind == 'generic' else f'@{kind}'
     np.random.seed(12345)
     r = call_outcome(STEPS[inp['cls']], F, q.copy(), g.copy(), a.copy(), m.copy())
+    if _nan_rejected(r):
+        return {'tag': f"{inp['cls']}/{NANFAM}{suffix}", 'observed': list(r[1:])}
     if r[0] == 'raise':
         return {'tag': f"{inp['cls']}/raises-{r[1]}{suffix}", 'observed': list(r[1:])}
     bad = _validate('quaternion', np.asarray(r[1])[None] if np.ndim(r[1]) == 1 else r[1], 1)
     if bad is not None:
-        return {'tag': f"{inp['cls']}/{bad[0]}{suffix}", 'observed': bad[1], 'expected': 'a real finite unit quaternion'}
+        return {'tag': f"{inp['cls']}/{NANFAM if bad[0] == 'nonfinite' else bad[0]}{suffix}", 'observed': bad[1], 'expected': 'a real finite unit quaternion'}
     return None
 
 
